@@ -258,7 +258,30 @@ def xml_declared(ctx: Ctx):
             ctx.unknown("R4.xml", site, str(e2))
 
 
+def result_classes(ctx: Ctx):
+    """Uncalibrated integer encodings come back as integers and float encodings as floats whatever parameter type wraps
+    them (an IntegerDataEncoding under a FloatParameterType is still an exact integer)."""
+    PT = "xtce/parameter_types.py"
+    h = Harness(ctx.prog)
+    big = (1 << 64) - 1
+    for ptype in ("IntegerParameterType", "FloatParameterType", "AbsoluteTimeParameterType", "RelativeTimeParameterType"):
+        for encsrc, data, want, cls in (("encodings.IntegerDataEncoding(64, 'unsigned')", big.to_bytes(8, "big"), big, "IntParameter"),
+                                        ("encodings.IntegerDataEncoding(16, 'signed')", b"\xff\xfe", -2, "IntParameter"),
+                                        ("encodings.FloatDataEncoding(64)", struct.pack(">d", 0.1), 0.1, "FloatParameter")):
+            site = f"{PT}::{ptype}.parse_value::{encsrc.split('(')[0].split('.')[-1]}{encsrc.split('(')[1][:2]}"
+            try:
+                kind, got = h.outcome(f"{ptype}('T', {encsrc}).parse_value(pkt)", PT, pkt=h.packet(data + b"\x00", {}))
+                ok = kind == "ok" and got == want and getattr(got, "cls", "") == cls and isinstance(got, float) == isinstance(want, float) \
+                    and got.attrs.get("raw_value") == want
+                ctx.decide(ok, "R4.cls", site, f"{cls}",
+                           f"{ptype} over {encsrc}: {'raises ' + str(got) if kind != 'ok' else repr(got) + ' (' + str(getattr(got, 'cls', type(got).__name__)) + ')'}; "
+                           f"the uncalibrated encoded value is {want!r} as {cls}")
+            except Unsupported as e:
+                ctx.unknown("R4.cls", site, str(e))
+
+
 def check(ctx: Ctx) -> None:
+    ctx.guard("R4.cls", ENC, result_classes, ctx)
     ctx.guard("R4.xml", ENC, xml_declared, ctx)
     thorough = ctx.stats.get("tier") == "thorough"
     h = Harness(ctx.prog, max_steps=400000)
@@ -298,7 +321,7 @@ SPEC = PropSpec(
     pid="C04",
     title="Integer and float fields decode correctly at every size, offset and byte order",
     check=check,
-    floors={"R4.int": 6, "R4.float": 14, "R4.tab": 4, "R4.xml": 9},
+    floors={"R4.int": 6, "R4.float": 14, "R4.tab": 4, "R4.xml": 9, "R4.cls": 12},
     explanation=("Decision tables by abstract interpretation of the numeric decoders against the checker's reference: "
                  "integers for 18 widths (thorough: every width 1..65 plus 72/96/128) x three encodings x both byte "
                  "orders (whole-byte widths) x bit offsets x seven boundary bit patterns (zeros, ones, sign bit only, "
